@@ -454,8 +454,12 @@ def finite(v):
 
 def run_case(case, observe_result=False):
     """returns obs = {"exn", "exn_text", "rec": {...}, "params", "errs", "result": {...}}"""
+    return run_call(lambda: call_fit(case), case, observe_result)
+
+
+def run_call(thunk, case, observe_result=False):
+    """run one fit call (thunk) with the recording wrappers; [case] describes the data as they are at the call"""
     import numpy as np
-    q = _q()
     rec = Recorder()
     obs = {"exn": None}
     res = None
@@ -463,7 +467,7 @@ def run_case(case, observe_result=False):
         warnings.simplefilter("ignore")
         with recording(rec), np.errstate(all="ignore"):
             try:
-                res = call_fit(case)
+                res = thunk()
             except Exception as e:  # noqa
                 obs["exn"] = exn_class(e)
                 obs["exn_type"] = type(e).__name__
@@ -479,6 +483,233 @@ def run_case(case, observe_result=False):
                     obs["result"] = observe(res, case)
     obs["_res"] = res
     return obs
+
+
+# =============================================================================================================
+# histories on ONE data-set object: fit, edit uncertainties / values in place, fit again, alternate requests
+# =============================================================================================================
+# case = {"kind": "history", "holder": "dataset" | "dataset_method" | "marrays",
+#         "xs", "ys", "xerr", "yerr": the data the object is created with,
+#         "requests": [ {kind, model, deg, designator, degrees_kw, xrange, xrange_type, guess, ...}, ... ],
+#         "steps": [ ["fit", k] | ["yerr", [..]] | ["xerr", [..]] | ["y", i, v] | ["yerr1", i, e] | ["xerr1", i, e] ]}
+REQ_KEYS = ("kind", "model", "deg", "designator", "degrees_kw", "xrange", "xrange_type", "guess", "truth", "noise_free")
+
+
+def request_of(case):
+    return {k: case[k] for k in REQ_KEYS if k in case}
+
+
+def history_states(case):
+    """the single-fit case equivalent to each fit step: [(step index, request index, current case)]"""
+    n = len(case["xs"])
+
+    def arr(e):
+        return [0.0] * n if e is None else [float(v) for v in e] if isinstance(e, list) else [float(e)] * n
+    xs, ys, xerr, yerr = list(case["xs"]), list(case["ys"]), arr(case["xerr"]), arr(case["yerr"])
+    out = []
+    for k, st in enumerate(case["steps"]):
+        if st[0] == "fit":
+            cur = dict(case["requests"][st[1]], xs=list(xs), ys=list(ys), xerr=list(xerr), yerr=list(yerr),
+                       mode="dataset", history_step=k)
+            out.append((k, st[1], cur))
+        elif st[0] == "yerr":
+            yerr = [float(v) for v in st[1]]
+        elif st[0] == "xerr":
+            xerr = [float(v) for v in st[1]]
+        elif st[0] == "yerr1":
+            yerr[st[1]] = float(st[2])
+        elif st[0] == "xerr1":
+            xerr[st[1]] = float(st[2])
+        elif st[0] == "y":
+            ys[st[1]] = float(st[2])
+        else:
+            raise ValueError(st)
+    return out
+
+
+def history_in_domain(case):
+    try:
+        states = history_states(case)
+    except (IndexError, ValueError, KeyError, TypeError):
+        return False
+    if not states:
+        return False
+    for _, _, cur in states:
+        if not in_domain(cur):
+            return False
+        if cur["kind"] == "poly" and not well_posed_poly(cur):
+            return False
+        if cur["kind"] == "curve" and not any(e > 0 for e in cur["yerr"]) and any(e > 0 for e in cur["xerr"]):
+            sel = [p for p in points(cur) if in_range_ref(cur, p[0])]
+            scale = max(abs(p[2]) for p in sel) or 1.0
+            if any(abs(ref_slope(cur["model"], cur["truth"], p[0])) < 0.05 * scale for p in sel):
+                return False
+    return True
+
+
+def run_history(case, observe_result=False):
+    """perform the steps on one object; returns [(step index, current case, obs)] for the fit steps"""
+    q = _q()
+    e = {}
+    if case["xerr"] is not None:
+        e["xerr"] = list(case["xerr"]) if isinstance(case["xerr"], list) else case["xerr"]
+    if case["yerr"] is not None:
+        e["yerr"] = list(case["yerr"]) if isinstance(case["yerr"], list) else case["yerr"]
+    holder = case["holder"]
+    if holder == "marrays":
+        xa = q.MeasurementArray(list(case["xs"]), e["xerr"]) if "xerr" in e else q.MeasurementArray(list(case["xs"]))
+        ya = q.MeasurementArray(list(case["ys"]), e["yerr"]) if "yerr" in e else q.MeasurementArray(list(case["ys"]))
+        xdata, ydata = xa, ya
+    else:
+        ds = q.XYDataSet(list(case["xs"]), list(case["ys"]), **e)
+        xdata, ydata = ds.xdata, ds.ydata
+    states = {k: cur for k, _, cur in history_states(case)}
+    out = []
+    for k, st in enumerate(case["steps"]):
+        if st[0] == "fit":
+            cur = states[k]
+            kw = {}
+            if cur["kind"] == "poly" and cur["model"] == "polynomial" and cur.get("degrees_kw", True):
+                kw["degrees"] = cur["deg"]
+            if cur["kind"] == "curve":
+                kw["parguess"] = list(cur["guess"])
+            if cur["xrange"] is not None:
+                kw["xrange"] = xrange_arg(cur)
+            model = model_arg(cur)
+            if holder == "marrays":
+                thunk = (lambda m=model, kw=kw: q.fit(xa, ya, m, **kw))
+            elif holder == "dataset_method":
+                thunk = (lambda m=model, kw=kw: ds.fit(m, **kw))
+            else:
+                thunk = (lambda m=model, kw=kw: q.fit(ds, m, **kw))
+            out.append((k, cur, run_call(thunk, cur, observe_result)))
+        elif st[0] == "yerr":
+            for item, v in zip(ydata, st[1]):
+                item.error = float(v)
+        elif st[0] == "xerr":
+            for item, v in zip(xdata, st[1]):
+                item.error = float(v)
+        elif st[0] == "yerr1":
+            ydata[st[1]].error = float(st[2])
+        elif st[0] == "xerr1":
+            xdata[st[1]].error = float(st[2])
+        elif st[0] == "y":
+            ydata[st[1]].value = float(st[2])
+    return out
+
+
+def gen_history(rng, curve=None):
+    """fit -> edit in place -> fit the same request again, optionally alternating with a second request"""
+    curve = rng.random() < 0.35 if curve is None else curve
+    for _ in range(200):
+        if curve:
+            base = gen_curve_case(rng)
+            base["xrange"] = None
+        else:
+            base = gen_poly_case(rng)
+            if isinstance(base["xrange"], str):
+                base["xrange"] = None
+        n = len(base["xs"])
+        npar = nparams_of(base)
+        reqs = [request_of(base)]
+        # a second, different request on the same object: other x-range, other model / degree
+        if rng.random() < 0.5:
+            other = dict(reqs[0])
+            r = rng.random()
+            if r < 0.5 or curve:
+                other["xrange"] = gen_xrange(rng, base["xs"], npar) if base["xrange"] is None else None
+            elif r < 0.75:
+                other.update(model="polynomial", deg=(base["deg"] % 3) + 1, degrees_kw=True)
+            else:
+                m = "linear" if base["model"] != "linear" else "quadratic"
+                other.update(model=m, deg={"linear": 1, "quadratic": 2}[m])
+            if other != reqs[0] and len(base["xs"]) > nparams_of(dict(base, **other)) + 1:
+                reqs.append(other)
+
+        def arr(e):
+            return [0.0] * n if e is None else [float(v) for v in e] if isinstance(e, list) else [float(e)] * n
+        yerr = arr(base["yerr"])
+        unit = max(yerr) or (1.0 if not curve else 2.0 ** round(math.log2(max(abs(y) for y in base["ys"]) / 16.0 or 1.0)))
+
+        def edit():
+            r = rng.random()
+            if r < 0.3:          # common / none -> per point
+                return ["yerr", [unit * rng.randrange(1, 25) / 8.0 for _ in range(n)]]
+            if r < 0.45:         # rescale (no effect on polynomial parameters, but on curve_fit covariances)
+                f = rng.choice([0.5, 2.0, 4.0])
+                cur = [v if v > 0 else unit for v in yerr]
+                return ["yerr", [v * f for v in cur]]
+            if r < 0.7:          # some points get another positive uncertainty
+                cur = [v if v > 0 else unit for v in yerr]
+                for i in rng.sample(range(n), rng.randrange(1, max(2, n // 2))):
+                    cur[i] = unit * rng.randrange(1, 49) / 8.0
+                return ["yerr", cur]
+            if r < 0.85 and curve:
+                return ["xerr", [rng.randrange(1, 17) / 64.0 for _ in range(n)]]
+            if r < 0.93:
+                i = rng.randrange(n)
+                return ["y", i, base["ys"][i] + rng.choice([-1, 1]) * (rng.randrange(1, 9) / 8.0) * (unit or 1.0)]
+            i = rng.randrange(n)
+            return ["yerr1", i, (yerr[i] or unit) * rng.choice([3.0, 5.0, 0.25])] if all(v > 0 for v in yerr) \
+                else ["yerr", [unit * rng.randrange(1, 25) / 8.0 for _ in range(n)]]
+        steps = [["fit", 0]]
+        if len(reqs) == 2:
+            steps += [["fit", 1], ["fit", 0]]
+        for _ in range(rng.randrange(1, 3)):
+            st = edit()
+            steps.append(st)
+            if st[0] == "yerr":
+                yerr = list(st[1])
+            elif st[0] == "yerr1":
+                yerr[st[1]] = st[2]
+            steps.append(["fit", 0])
+            if len(reqs) == 2:
+                steps.append(["fit", 1])
+                if rng.random() < 0.5:
+                    steps.append(["fit", 0])
+        case = {"kind": "history", "holder": rng.choice(["dataset", "dataset", "dataset_method", "marrays"]),
+                "xs": base["xs"], "ys": base["ys"], "xerr": base["xerr"], "yerr": base["yerr"],
+                "requests": reqs, "steps": steps}
+        if history_in_domain(case):
+            return case
+    return None
+
+
+def shrink_history(case, fails):
+    """fewer steps, one request, fewer points"""
+    best = dict(case)
+
+    def attempt(c):
+        nonlocal best
+        try:
+            if history_in_domain(c) and fails(c):
+                best = c
+                return True
+        except Exception:  # noqa
+            pass
+        return False
+    if best["holder"] != "dataset":
+        attempt(dict(best, holder="dataset"))
+    changed = True
+    while changed:
+        changed = False
+        for i in range(len(best["steps"])):
+            if attempt(dict(best, steps=best["steps"][:i] + best["steps"][i + 1:])):
+                changed = True
+                break
+    used = sorted({st[1] for st in best["steps"] if st[0] == "fit"})
+    if len(used) < len(best["requests"]):
+        attempt(dict(best, requests=[best["requests"][k] for k in used],
+                     steps=[["fit", used.index(st[1])] if st[0] == "fit" else st for st in best["steps"]]))
+    for k, r in enumerate(best["requests"]):
+        for key, val in (("xrange", None), ("designator", "str")):
+            if r.get(key) not in (None, val):
+                rs = list(best["requests"])
+                rs[k] = dict(r, **{key: val})
+                attempt(dict(best, requests=rs))
+    if best["xerr"] is not None and not any(st[0].startswith("xerr") for st in best["steps"]):
+        attempt(dict(best, xerr=None))
+    return best
 
 
 def eval_points(case):
